@@ -278,7 +278,41 @@ func featList(f map[string]bool) string {
 	return strings.Join(ks, ",")
 }
 
+// execScriptFree runs src with no scheduler at all: the Go runtime decides who runs (worker processes
+// of this mode never install a scheduler).  A cross-check that the hook model hides nothing: a lock or
+// hand-off added to golua without a hook, or a race the serialised runs cannot produce.
+func execScriptFree(src string) ([]string, string) {
+	log := &core.Log{}
+	h := harness.NewHost(nil, log)
+	out := h.Run("sim", src)
+	ev := log.Events()
+	outcome := out.String()
+	if pan := h.Close(); pan != nil {
+		outcome += fmt.Sprintf(" CLOSEPANIC(%v)", pan)
+	}
+	return ev, outcome
+}
+
 func runCoroFree(ctx *core.RunCtx) {
+	if ctx.Mode == "free" {
+		src, feat := genCoroScript(ctx.Gen, false)
+		ctx.Sample = src
+		ev0, out0 := execScriptFree(src)
+		ev1, out1 := execScriptFree(src)
+		ctx.Trivial = false
+		ctx.Shape = core.HashString(src)
+		ctx.Count("free-running executions", 2)
+		fl := featList(feat)
+		if strings.Contains(out0, "PANIC") && !strings.Contains(out0, "PANIC(TERMINATION") {
+			ctx.Fail("C09", "C09.P", "panic", "Go panic escaped (free-running): %s {%s}", out0, fl)
+			return
+		}
+		if out0 != out1 || firstDiff(ev0, ev1) >= 0 {
+			d := firstDiff(ev0, ev1)
+			ctx.Fail("C09", "C09.S1", "free-runs-differ", "two free-running executions of the same script differ: outcome %s vs %s, first log difference #%d %q vs %q {%s}", out0, out1, d, at(ev0, d), at(ev1, d), fl)
+		}
+		return
+	}
 	src, feat := genCoroScript(ctx.Gen, false)
 	ctx.Sample = src
 	zero := core.ReplayTape(nil)
